@@ -69,7 +69,7 @@ Definition Core (cl : bool) (b : sbuf) (i dn : nat) (q : list (nat * nat)) (n : 
        match m with Some mx => bsize b <= mx | None => True end.
 
 Definition Inv (s : stream) : Prop :=
-  dead s = false /\ goodb (tr s) = true /\
+  dead s = false /\ goodb (tr s) = true /\ connecting s = connecting_tr (tr s) /\
   Core (closed s) (wb s) (twi s) (twd s) (wfut s) (nfut s) (maxb s) (tr s).
 
 (* events that do not touch bytes or futures *)
@@ -105,10 +105,12 @@ Proof.
 Qed.
 
 Lemma Inv_emit_neutral e s :
-  neutral e = true -> event_ok e (tr s) = true -> Inv s -> Inv (emit e s).
+  neutral e = true -> event_ok e (tr s) = true ->
+  connecting_tr (e :: tr s) = connecting_tr (tr s) -> Inv s -> Inv (emit e s).
 Proof.
-  intros Hn He (Hd & Hg & Hc). unfold Inv, emit; simpl. repeat split; auto.
+  intros Hn He Hct (Hd & Hg & Hcn & Hc). unfold Inv, emit; simpl. repeat split; auto.
   - rewrite He, Hg. reflexivity.
+  - rewrite Hcn. symmetry. exact Hct.
   - apply Core_neutral; auto.
 Qed.
 
@@ -121,35 +123,40 @@ Proof. intros H; exact H. Qed.
 Lemma fail_all_spec : forall q t,
   goodb t = true -> map snd q = pending_ids t -> inc (map snd q) (count_writes t) ->
   let t' := rev (map (fun p : nat * nat => EFail (snd p)) q) ++ t in
-  goodb t' = true /\ pending_ids t' = [].
+  goodb t' = true /\ pending_ids t' = [] /\ connecting_tr t' = connecting_tr t.
 Proof.
   induction q as [|[idx id] q IH]; intros t Hg Hp Hi; simpl in *.
-  - split; auto.
+  - repeat split; auto.
   - destruct Hi as (H1 & H2 & H3). rewrite <- app_assoc. simpl.
-    apply IH.
+    destruct (IH (EFail id :: t)) as (A & B & C).
     + simpl. rewrite <- Hp. simpl. rewrite Nat.eqb_refl. simpl. exact Hg.
     + simpl. rewrite <- Hp. simpl. rewrite Nat.eqb_refl. simpl.
       rewrite filter_above; auto.
     + simpl. exact H3.
+    + repeat split; auto.
 Qed.
 
 Lemma Inv_close s : Inv s -> Inv (close_stream s) /\ closed (close_stream s) = true.
 Proof.
-  intros (Hd & Hg & Hc). unfold close_stream. destruct (closed s) eqn:E.
+  intros (Hd & Hg & Hcn & Hc). unfold close_stream. destruct (closed s) eqn:E.
   - split; auto. unfold Inv. rewrite E. auto.
   - simpl. unfold Core in Hc. destruct Hc as (_ & _ & _ & _ & (Hq1 & Hq2 & Hq3) & _ & _).
-    destruct (fail_all_spec (wfut s) (tr s) Hg Hq1 Hq3) as [Ha Hb].
-    split; auto. unfold Inv; simpl. repeat split; auto.
+    destruct (fail_all_spec (wfut s) (tr s) Hg Hq1 Hq3) as (Ha & Hb & Hcc).
+    split; auto. unfold Inv; simpl.
+    destruct (connecting s) eqn:Ecn; simpl.
+    + rewrite Hcc, <- Hcn, Ha. repeat split; auto.
+    + rewrite Hcc, <- Hcn. repeat split; auto.
 Qed.
 
 (* ---------- the futures loop ---------- *)
 Lemma resolve_loop_spec : forall q t q' t',
   goodb t = true -> QInv q t -> (exists rest, sent_of t ++ rest = written_of t) ->
+  connecting_tr t = false ->
   resolve_loop q (length (sent_of t)) t = (q', t') ->
   goodb t' = true /\ QInv q' t' /\ sent_of t' = sent_of t /\ written_of t' = written_of t /\
-  count_writes t' = count_writes t.
+  count_writes t' = count_writes t /\ connecting_tr t' = connecting_tr t.
 Proof.
-  induction q as [|[idx id] q IH]; intros t q' t' Hg HQ Hpre Hr; simpl in Hr.
+  induction q as [|[idx id] q IH]; intros t q' t' Hg HQ Hpre Hct Hr; simpl in Hr.
   - inversion Hr; subst. repeat split; auto; apply HQ.
   - destruct (length (sent_of t) <? idx) eqn:E.
     + inversion Hr; subst. repeat split; auto; apply HQ.
@@ -157,28 +164,30 @@ Proof.
       destruct Hi as (Hi1 & Hi2 & Hi3).
       inversion Hf as [|? ? [Hwt Hle] Hf']; subst. simpl in Hwt, Hle.
       assert (Hok : event_ok (EResolve id) t = true).
-      { simpl. rewrite Hwt, <- Hp. rewrite Nat.eqb_refl, andb_true_r.
+      { simpl. rewrite Hwt, <- Hp, Hct. rewrite Nat.eqb_refl, !andb_true_r.
         destruct Hpre as [rest Hpre]. rewrite <- Hpre.
         rewrite firstn_app_le by lia. apply is_prefixb_iff.
         exists (skipn idx (sent_of t)). symmetry. apply firstn_skipn. }
       apply (IH (EResolve id :: t)) in Hr.
-      * destruct Hr as (A & B & C & D & F). simpl in C, D, F. split; auto.
+      * destruct Hr as (A & B & C & D & F & G). simpl in C, D, F, G. repeat (split; auto).
       * change (goodb (EResolve id :: t)) with (event_ok (EResolve id) t && goodb t).
         rewrite Hok, Hg. reflexivity.
       * unfold QInv. simpl. rewrite <- Hp. simpl. rewrite Nat.eqb_refl. simpl.
         rewrite filter_above by auto. repeat split; auto.
       * simpl. exact Hpre.
+      * simpl. exact Hct.
 Qed.
 
-Lemma Inv_resolve s : Inv s -> closed s = false -> Inv (resolve s) /\ closed (resolve s) = false.
+Lemma Inv_resolve s :
+  Inv s -> closed s = false -> connecting s = false -> Inv (resolve s) /\ closed (resolve s) = false.
 Proof.
-  intros (Hd & Hg & Hc) Ho. unfold resolve. rewrite Ho in Hc. unfold Core in Hc.
+  intros (Hd & Hg & Hcn & Hc) Ho Hcf. unfold resolve. rewrite Ho in Hc. unfold Core in Hc.
   destruct Hc as (A & B & C & D & E & F & G).
   destruct (resolve_loop (wfut s) (twd s) (tr s)) as [q' t'] eqn:Hr.
-  rewrite D in Hr. apply resolve_loop_spec in Hr; auto; [|exists (abs (wb s)); auto].
-  destruct Hr as (R1 & R2 & R3 & R4 & R5). simpl. split; auto.
-  unfold Inv; simpl. rewrite Ho. unfold Core. rewrite R3, R4, R5.
-  split; auto. split; auto. core_split; auto.
+  rewrite D in Hr. apply resolve_loop_spec in Hr; auto; [|exists (abs (wb s)); auto|congruence].
+  destruct Hr as (R1 & R2 & R3 & R4 & R5 & R6). simpl. split; auto.
+  unfold Inv; simpl. rewrite Ho. unfold Core. rewrite R3, R4, R5, R6.
+  split; auto. split; auto. split; auto. core_split; auto.
 Qed.
 
 (* ---------- the send loop ---------- *)
@@ -187,21 +196,21 @@ Definition same_static (s s' : stream) : Prop :=
   twi s' = twi s.
 
 Lemma send_step s n sc :
-  Inv s -> closed s = false ->
+  Inv s -> closed s = false -> connecting s = false ->
   n <= length (peek (bsize (wb s)) (wb s)) ->
   let chunk := peek (bsize (wb s)) (wb s) in
   let s1 := emit (ESend (length chunk) (firstn n chunk)) (set_script sc s) in
   (n = 0 -> Inv s1) /\
   (0 < n -> exists b', advance n (wb s) = AdvOk b' /\ bsize b' + n = bsize (wb s) /\
      Inv (mkst (thr s1) (maxb s1) b' (twi s1) (twd s1 + n) (wfut s1) (nfut s1) (closed s1)
-               (listening s1) (script s1) (dead s1) (tr s1))).
+               (listening s1) (script s1) (dead s1) (connecting s1) (conn_ok s1) (tr s1))).
 Proof.
-  intros (Hd & Hg & Hc) Ho Hn chunk s1. rewrite Ho in Hc. unfold Core in Hc.
+  intros (Hd & Hg & Hcn & Hc) Ho Hcf Hn chunk s1. rewrite Ho in Hc. unfold Core in Hc.
   destruct Hc as (A & B & C & D & E & F & G).
   destruct (peek_prefix (bsize (wb s)) (wb s) A) as [rest Hrest]. fold chunk in Hrest, Hn.
   assert (Hlen : length (firstn n chunk) = n) by (apply firstn_length_le; lia).
   assert (Hok : event_ok (ESend (length chunk) (firstn n chunk)) (tr s) = true).
-  { simpl. apply andb_true_iff; split.
+  { simpl. rewrite <- Hcn, Hcf. simpl. rewrite andb_true_r. apply andb_true_iff; split.
     - apply Nat.leb_le. lia.
     - rewrite <- B, Hrest. apply is_prefixb_iff.
       exists (skipn n chunk ++ rest). rewrite <- !app_assoc. f_equal.
@@ -211,14 +220,15 @@ Proof.
   assert (Hsize : length chunk <= bsize (wb s)).
   { pose proof A as A'. unfold wf in A'. destruct A' as (_ & _ & A3). rewrite A3, Hrest, app_length. lia. }
   split.
-  - intros ->. unfold Inv, s1, emit, set_script; simpl. rewrite Ho. split; auto. split.
-    + simpl in Hok. rewrite Hok, Hg. reflexivity.
-    + unfold Core. simpl. rewrite app_nil_r. core_split; auto.
+  - intros ->. unfold Inv, s1, emit, set_script. cbn [dead tr closed connecting wb twi twd wfut nfut maxb].
+    rewrite Ho. split; auto. split; [rewrite goodb_cons, Hok, Hg; reflexivity|]. split; [exact Hcn|].
+    unfold Core. simpl. rewrite app_nil_r. core_split; auto.
   - intros Hpos.
     destruct (advance_spec n (wb s) A Hpos ltac:(lia)) as (b' & Ha & Hwf & Habs & Hsz).
-    exists b'. split; auto. split; [lia|]. split; auto. split.
+    exists b'. split; auto. split; [lia|]. split; auto. split; [|split].
     + change (goodb (ESend (length chunk) (firstn n chunk) :: tr s) = true).
       rewrite goodb_cons, Hok, Hg. reflexivity.
+    + exact Hcn.
     + unfold s1, emit, set_script; simpl. rewrite Ho. unfold Core. simpl.
       core_split; auto.
       * rewrite Habs, <- B, Hrest, <- app_assoc. f_equal.
@@ -230,14 +240,14 @@ Qed.
 
 Definition loop_ok (r : loop_result) : Prop :=
   match r with
-  | LBreak s' => Inv s' /\ closed s' = false
+  | LBreak s' => Inv s' /\ closed s' = false /\ connecting s' = false
   | LClosed s' => Inv s' /\ closed s' = true
   | LDead _ => False
   end.
 
 Lemma send_accept f s n sc :
-  (forall s0, Inv s0 -> closed s0 = false -> bsize (wb s0) < f -> loop_ok (send_loop f s0)) ->
-  Inv s -> closed s = false -> bsize (wb s) < S f ->
+  (forall s0, Inv s0 -> closed s0 = false -> connecting s0 = false -> bsize (wb s0) < f -> loop_ok (send_loop f s0)) ->
+  Inv s -> closed s = false -> connecting s = false -> bsize (wb s) < S f ->
   n <= length (peek (bsize (wb s)) (wb s)) ->
   loop_ok
     (let chunk := peek (bsize (wb s)) (wb s) in
@@ -247,40 +257,41 @@ Lemma send_accept f s n sc :
           | AdvOk b' =>
               send_loop f (mkst (thr s1) (maxb s1) b' (twi s1) (twd s1 + n)
                                 (wfut s1) (nfut s1) (closed s1) (listening s1)
-                                (script s1) (dead s1) (tr s1))
+                                (script s1) (dead s1) (connecting s1) (conn_ok s1) (tr s1))
           | _ => LDead (set_dead (emit ECrash s1))
           end).
 Proof.
-  intros IH HI Ho Hf Hn. cbv zeta.
-  destruct (send_step s n sc HI Ho Hn) as [H0 H1].
+  intros IH HI Ho Hcf Hf Hn. cbv zeta.
+  destruct (send_step s n sc HI Ho Hcf Hn) as [H0 H1].
   destruct (n =? 0) eqn:E.
-  - apply Nat.eqb_eq in E. simpl. split; [apply H0; exact E|exact Ho].
+  - apply Nat.eqb_eq in E. simpl. split; [apply H0; exact E|split; [exact Ho|exact Hcf]].
   - apply Nat.eqb_neq in E. destruct H1 as (b' & Ha & Hsz & HI'); [lia|].
     change (wb (emit (ESend (length (peek (bsize (wb s)) (wb s)))
                      (firstn n (peek (bsize (wb s)) (wb s)))) (set_script sc s))) with (wb s).
     rewrite Ha. apply IH.
     + exact HI'.
     + simpl. exact Ho.
+    + simpl. exact Hcf.
     + simpl. lia.
 Qed.
 
 Lemma send_loop_inv : forall fuel s,
-  Inv s -> closed s = false -> bsize (wb s) < fuel -> loop_ok (send_loop fuel s).
+  Inv s -> closed s = false -> connecting s = false -> bsize (wb s) < fuel -> loop_ok (send_loop fuel s).
 Proof.
-  induction fuel as [|f IH]; intros s HI Ho Hf; [lia|].
+  induction fuel as [|f IH]; intros s HI Ho Hcf Hf; [lia|].
   cbn [send_loop]. destruct (bsize (wb s) =? 0) eqn:E0; [simpl; auto|].
   destruct (script s) as [|[k| |] sc] eqn:Hsc.
   - apply (send_accept f s (length (peek (bsize (wb s)) (wb s))) []); auto.
   - apply (send_accept f s (Nat.min k (length (peek (bsize (wb s)) (wb s)))) sc); auto; try lia.
-  - simpl. split; auto; apply Inv_emit_neutral; auto.
+  - simpl. split; [apply Inv_emit_neutral; auto|split; auto].
   - simpl. apply Inv_close. apply Inv_emit_neutral; auto.
 Qed.
 
 Lemma Inv_handle_write s :
-  Inv s -> closed s = false -> Inv (handle_write s).
+  Inv s -> closed s = false -> connecting s = false -> Inv (handle_write s).
 Proof.
-  intros HI Ho. unfold handle_write.
-  pose proof (send_loop_inv (S (bsize (wb s))) s HI Ho ltac:(lia)) as H.
+  intros HI Ho Hcf. unfold handle_write.
+  pose proof (send_loop_inv (S (bsize (wb s))) s HI Ho Hcf ltac:(lia)) as H.
   destruct (send_loop (S (bsize (wb s))) s) as [s'|s'|s']; simpl in H.
   - apply Inv_resolve; apply H.
   - apply H.
@@ -300,7 +311,8 @@ Qed.
 
 Lemma nr_close s : hd_refusal (tr s) = false -> hd_refusal (tr (close_stream s)) = false.
 Proof.
-  intros H. unfold close_stream. destruct (closed s); auto. simpl. apply nr_fail_all; auto.
+  intros H. unfold close_stream. destruct (closed s); auto. simpl.
+  destruct (connecting s); simpl; [reflexivity|]. apply nr_fail_all; auto.
 Qed.
 
 Lemma nr_resolve_loop : forall q dn t,
@@ -369,7 +381,7 @@ Lemma snapshot_ok s :
    exists t', (tr s = ERefuse :: t' \/ tr s = EClosedW :: t') /\ last_snap t' = snapshot s) ->
   event_ok (snapshot s) (tr s) = true.
 Proof.
-  intros (Hd & Hg & Hc) Hr.
+  intros (Hd & Hg & Hcn & Hc) Hr.
   assert (Hclean : refusal_clean (snapshot s) (tr s) = true).
   { destruct Hr as [Hr|(t' & [E|E] & Hl)].
     - unfold refusal_clean. destruct (tr s) as [|[] t']; simpl in Hr; auto; discriminate.
@@ -391,7 +403,10 @@ Lemma finish_op s :
   Inv (emit (snapshot s) s) /\ Q (emit (snapshot s) s).
 Proof.
   intros HI Hr. split.
-  - apply Inv_emit_neutral; auto. apply snapshot_neutral. apply snapshot_ok; auto.
+  - apply Inv_emit_neutral; auto.
+    + apply snapshot_neutral.
+    + apply snapshot_ok; auto.
+    + unfold snapshot. destruct (closed s); reflexivity.
   - unfold Q, emit, snapshot; simpl. destruct (closed s); reflexivity.
 Qed.
 
@@ -410,11 +425,11 @@ Proof.
     + split; [apply Inv_emit_neutral; auto|].
       right. exists (tr s). split; [left; reflexivity|].
       rewrite HQ. unfold snapshot, emit; simpl. rewrite Ho. reflexivity.
-    + set (s1 := mkst _ _ _ _ _ _ _ _ _ _ _ _).
+    + set (s1 := mkst _ _ _ _ _ _ _ _ _ _ _ _ _ _).
       assert (HI1 : Inv s1).
-      { destruct HI as (Hd & Hg & Hc). rewrite Ho in Hc. unfold Core in Hc.
+      { destruct HI as (Hd & Hg & Hcn & Hc). rewrite Ho in Hc. unfold Core in Hc.
         destruct Hc as (A & B & C & D & (E1 & E2 & E3) & F & G).
-        unfold Inv, s1; simpl. split; auto. split.
+        unfold Inv, s1; simpl. split; auto. split; [|split; [exact Hcn|]].
         - rewrite F, Nat.eqb_refl, Hg. reflexivity.
         - unfold Core. simpl.
           assert (Hwb : wf (if 0 <? length d then append (thr s) d (wb s) else wb s) /\
@@ -449,9 +464,30 @@ Proof.
             destruct (0 <? length d) eqn:E; simpl in Hfull.
             * apply Nat.ltb_ge in Hfull. lia.
             * apply Nat.ltb_ge in E. lia. }
+      destruct (connecting s) eqn:Ecn; [split; [exact HI1|left; reflexivity]|].
       assert (HI2 : Inv (handle_write s1)) by (apply Inv_handle_write; auto).
       assert (Hnr : hd_refusal (tr (handle_write s1)) = false) by (apply nr_handle_write; reflexivity).
       destruct (dead (handle_write s1) || closed (handle_write s1)); split; auto.
+Qed.
+
+Lemma closed_close s : closed (close_stream s) = true.
+Proof. unfold close_stream. destruct (closed s) eqn:E; [exact E|reflexivity]. Qed.
+
+Lemma Inv_handle_connect s :
+  Inv s -> closed s = false ->
+  Inv (handle_connect s) /\
+  (closed (handle_connect s) = false -> connecting (handle_connect s) = false) /\
+  (hd_refusal (tr s) = false -> hd_refusal (tr (handle_connect s)) = false).
+Proof.
+  intros HI Ho. unfold handle_connect. destruct (connecting s) eqn:Ecn.
+  - destruct (conn_ok s).
+    + split; [|split; [reflexivity|reflexivity]].
+      destruct HI as (Hd & Hg & Hcn & Hc). unfold Inv; simpl.
+      split; auto. split; [rewrite <- Hcn, Ecn, Hg; reflexivity|]. split; auto.
+    + split; [apply Inv_close; exact HI|]. split.
+      * rewrite closed_close. discriminate.
+      * apply nr_close.
+  - split; auto.
 Qed.
 
 Lemma Inv_do_ready s :
@@ -460,10 +496,13 @@ Proof.
   intros HI. unfold do_ready. destruct (closed s || negb (listening s)) eqn:E.
   - split; [apply Inv_emit_neutral; auto|reflexivity].
   - apply orb_false_iff in E as [Ho _].
-    assert (HI2 : Inv (handle_write (emit (EReady true) s))).
-    { apply Inv_handle_write; auto; apply Inv_emit_neutral; auto. }
-    assert (Hnr : hd_refusal (tr (handle_write (emit (EReady true) s))) = false)
-      by (apply nr_handle_write; reflexivity).
+    destruct (Inv_handle_connect (emit (EReady true) s)) as (HI1 & Hc1 & Hn1);
+      [apply Inv_emit_neutral; auto|exact Ho|].
+    set (s1 := handle_connect (emit (EReady true) s)) in *.
+    specialize (Hn1 eq_refl).
+    destruct (closed s1) eqn:Ho1; [split; auto|].
+    assert (HI2 : Inv (handle_write s1)) by (apply Inv_handle_write; auto).
+    assert (Hnr : hd_refusal (tr (handle_write s1)) = false) by (apply nr_handle_write; exact Hn1).
     destruct (dead _ || closed _); split; auto.
 Qed.
 
@@ -481,13 +520,12 @@ Proof.
     left. apply nr_close. reflexivity.
 Qed.
 
-Lemma Inv_init t m sc : Inv (init t m sc) /\ Q (init t m sc).
+Lemma Inv_init cn t m sc : Inv (init_with cn t m sc) /\ Q (init_with cn t m sc).
 Proof.
-  split; [|reflexivity]. unfold Inv, init; simpl. split; auto. split; auto.
-  unfold Core. core_split; auto.
-  - apply wf_empty.
-  - unfold QInv; simpl. auto.
-  - destruct m; simpl; auto. lia.
+  destruct cn as [ok|]; (split; [|reflexivity]); unfold Inv, init_with, init, init_connecting; simpl;
+    (split; auto; split; auto; split; auto);
+    (unfold Core; core_split; auto;
+     [apply wf_empty|unfold QInv; simpl; auto|destruct m; simpl; auto; lia]).
 Qed.
 
 Lemma Inv_run_ops : forall ops s, Inv s /\ Q s -> Inv (run_ops ops s) /\ Q (run_ops ops s).
@@ -495,5 +533,5 @@ Proof.
   induction ops as [|o ops IH]; intros s H; simpl; auto. apply IH. apply Inv_do_op. exact H.
 Qed.
 
-Theorem run_inv t m sc ops : Inv (run_ops ops (init t m sc)).
+Theorem run_inv cn t m sc ops : Inv (run_ops ops (init_with cn t m sc)).
 Proof. apply Inv_run_ops. apply Inv_init. Qed.
